@@ -362,6 +362,11 @@ func (e *Exec) step(s *State) stepResult {
 		if in.Op == token.ARROW {
 			return e.execRecv(s, f, in)
 		}
+		if in.Op == token.MUL && len(s.guards) > 0 {
+			if pp, ok := e.get(s, f, in.X).(PtrV); ok {
+				e.guardAccess(s, f, 0, &pp, false)
+			}
+		}
 		e.set(f, in, e.unop(s, f, in))
 		f.ip++
 	case *ssa.BinOp:
@@ -374,6 +379,9 @@ func (e *Exec) step(s *State) stepResult {
 		pp, ok := p.(PtrV)
 		if !ok {
 			panic(unsupported(fmt.Sprintf("store through %T", p)))
+		}
+		if len(s.guards) > 0 {
+			e.guardAccess(s, f, 0, &pp, true)
 		}
 		s.store(pp, v)
 		f.ip++
@@ -523,6 +531,11 @@ func (e *Exec) step(s *State) stepResult {
 	case *ssa.MapUpdate:
 		return e.execMapUpdate(s, f, in)
 	case *ssa.Range:
+		if len(s.guards) > 0 {
+			if mv, ok := e.get(s, f, in.X).(MapV); ok {
+				e.guardAccess(s, f, mv.Obj, nil, false)
+			}
+		}
 		e.set(f, in, e.makeRange(s, f, in))
 		f.ip++
 	case *ssa.Next:
@@ -1694,6 +1707,9 @@ func (e *Exec) execLookup(s *State, f *Frame, in *ssa.Lookup) stepResult {
 		f.ip++
 		return stepResult{kind: kCont}
 	}
+	if mv, ok := x.(MapV); ok && len(s.guards) > 0 {
+		e.guardAccess(s, f, mv.Obj, nil, false)
+	}
 	m := e.mapObj(s, x)
 	vt := under(in.X.Type()).(*types.Map).Elem()
 	var res Value = zeroValue(vt)
@@ -1766,6 +1782,9 @@ func (e *Exec) execMapUpdate(s *State, f *Frame, in *ssa.MapUpdate) stepResult {
 	mv := x.(MapV)
 	if mv.Obj == 0 {
 		panic(goPanic{"assignment to entry in nil map"})
+	}
+	if len(s.guards) > 0 {
+		e.guardAccess(s, f, mv.Obj, nil, true)
 	}
 	m := s.heap[mv.Obj].(*MapObj)
 	k := e.get(s, f, in.Key)
